@@ -4,7 +4,10 @@ import json, os
 V = os.path.dirname(os.path.dirname(os.path.abspath(__file__)))
 NOTE = ("Trusted: Lean 4.33 kernel; axioms subset of {propext, Classical.choice, Quot.sound} (printed per theorem each run); "
         "the hand-written model lean/Slinkyv/*.lean is tied to /repo by the correspondence run of this check (all outputs byte-equal on every case) "
-        "and by evaluating the property predicate on the implementation's own outputs; std::path, serde derive behaviour, HashMap order, "
+        "and by evaluating the property predicate on the implementation's own outputs; the table-like and text-producing parts of the source "
+        "(settings defaults, naming functions, serde field lists, every string literal of script_buffer.rs / linker_writer.rs / "
+        "partial_linker_writer.rs, version constants) are translated into lean/Src/*.lean on every run and the Props/*Src.lean / *Fmt.lean theorems "
+        "re-checked against them; std::path, serde derive behaviour, HashMap order, "
         "number formatting are modelled by hand; serde_yaml's scanner, clap, the OS and the linkers are outside the model (DESIGN.md §10).")
 CLAIMS = {}
 def claim(pid, text, technique, design_ref):
